@@ -356,34 +356,30 @@ func stepLoop(c *core.Ctx, fn *core.Fn, name string, as *ast.AssignStmt, b ast.E
 	switch l := loop.(type) {
 	case *ast.ForStmt:
 		ie, ok := b.(*ast.IndexExpr)
-		if !ok || !isParam(ie.X) || l.Init == nil || l.Cond == nil || l.Post == nil {
+		if !ok || !isParam(ie.X) || l.Cond == nil {
 			und("byte operand %s is not an element of the input indexed by a counting loop", c.Src(b))
 			return
 		}
-		bd := pat.Binds{"_i": ie.Index, "_buf": ie.X}
-		initOK := pat.Stmt("_i = 0").Match(info, l.Init, bd) != nil
-		condOK := pat.Expr("_i < len(_buf)").Match(info, l.Cond, bd) != nil
-		postOK := pat.Stmt("_i++").Match(info, l.Post, bd) != nil || pat.Stmt("_i += 1").Match(info, l.Post, bd) != nil
-		if pat.Stmt("_i = _k").Match(info, l.Init, bd) == nil || !postOK && pat.Stmt("_i += _k").Match(info, l.Post, bd) == nil {
-			und("unrecognised loop header around the step")
-			return
-		}
-		k0, isC0 := core.IntConst(info, l.Init.(*ast.AssignStmt).Rhs[0])
-		stride := int64(1)
-		if b := pat.Stmt("_i += _k").Match(info, l.Post, bd); b != nil {
-			stride, _ = core.IntConst(info, b["_k"].(ast.Expr))
-		}
+		start, stride, toLen, okH := countLoop(info, fn.Decl.Body, l, objOf(info, strip(info, ie.Index)), ie.X)
 		switch {
-		case isC0 && k0 != 0 || stride > 1:
-			c.Check("R2.step", name+"/loop", l.Pos(), false, fmt.Sprintf("the step must be applied to every byte buf[0..len) once, in order (loop starts at %d, stride %d): a skipped byte changes the CRC of every key containing it", k0, stride))
-		case initOK && condOK && postOK:
+		case !okH:
+			und("unrecognised loop header around the step")
+		case start != 0 || stride > 1:
+			c.Check("R2.step", name+"/loop", l.Pos(), false, fmt.Sprintf("the step must be applied to every byte buf[0..len) once, in order (loop starts at %d, stride %d): a skipped byte changes the CRC of every key containing it", start, stride))
+		case stride == 1 && toLen:
 			c.Okf("R2.step", name+"/loop", l.Pos(), "the step is applied to every byte buf[0..len) once, in order")
 		default:
 			und("unrecognised loop header around the step")
 		}
 	case *ast.RangeStmt:
 		// `range buf` or `range []byte(buf)` over the input parameter
-		if !isParam(strip(info, l.X)) || l.Value == nil || objOf(info, b) == nil || objOf(info, b) != objOf(info, l.Value) {
+		ranged := ast.Expr(l.X)
+		if o := objOf(info, ranged); o != nil && !isParam(ranged) { // data := []byte(buf); for _, c := range data
+			if rhs, other := defsOf(info, fn.Decl.Body, o); len(rhs) == 1 && other == 0 && rhs[0] != nil {
+				ranged = rhs[0]
+			}
+		}
+		if !isParam(strip(info, ranged)) || l.Value == nil || objOf(info, b) == nil || objOf(info, b) != objOf(info, l.Value) {
 			und("byte operand %s is not the range value of the input", c.Src(b))
 			return
 		}
@@ -546,4 +542,133 @@ func masks(c *core.Ctx, fn *core.Fn, name string) {
 			return true
 		})
 	}
+}
+
+// countLoop reads a counting loop over buf with index variable idx: the
+// constant it starts from, its stride, and whether it runs while idx < len(buf)
+// (the bound may be hoisted into a local, also in the loop's own init:
+// `for i, n := 0, len(buf); i < n; i++`).
+func countLoop(info *types.Info, body ast.Node, l *ast.ForStmt, idx types.Object, buf ast.Expr) (start, stride int64, toLen, ok bool) {
+	if l.Cond == nil || idx == nil {
+		return 0, 0, false, false
+	}
+	if l.Init == nil && l.Post == nil {
+		// `i := 0; for i < len(buf) { ...; i++ }`: the index starts at its only
+		// other assignment and is advanced by the last statement of the body
+		var start0 ast.Expr
+		nInit := 0
+		ast.Inspect(body, func(n ast.Node) bool {
+			if as, ok := n.(*ast.AssignStmt); ok && len(as.Lhs) == len(as.Rhs) && (as.Tok == token.DEFINE || as.Tok == token.ASSIGN) {
+				for i, lh := range as.Lhs {
+					if objOf(info, lh) == idx {
+						start0 = as.Rhs[i]
+						nInit++
+					}
+				}
+			}
+			return true
+		})
+		list := l.Body.List
+		if nInit != 1 || len(list) == 0 || start0 == nil || start0.Pos() > l.Pos() {
+			return 0, 0, false, false
+		}
+		incs := 0
+		ast.Inspect(l.Body, func(n ast.Node) bool {
+			switch st := n.(type) {
+			case *ast.IncDecStmt:
+				if objOf(info, st.X) == idx {
+					incs++
+				}
+			case *ast.AssignStmt:
+				for _, lh := range st.Lhs {
+					if objOf(info, lh) == idx {
+						incs++
+					}
+				}
+			case *ast.BranchStmt:
+				if st.Tok == token.CONTINUE {
+					incs += 2 // a continue may skip the increment
+				}
+			}
+			return true
+		})
+		if incs != 1 {
+			return 0, 0, false, false
+		}
+		l = &ast.ForStmt{For: l.For, Init: &ast.AssignStmt{Lhs: []ast.Expr{identFor(info, l.Cond, idx)}, Tok: token.DEFINE, Rhs: []ast.Expr{start0}}, Cond: l.Cond, Post: list[len(list)-1], Body: l.Body}
+		if l.Init.(*ast.AssignStmt).Lhs[0] == nil {
+			return 0, 0, false, false
+		}
+	}
+	if l.Init == nil || l.Post == nil {
+		return 0, 0, false, false
+	}
+	init, isAs := l.Init.(*ast.AssignStmt)
+	cond, isBin := ast.Unparen(l.Cond).(*ast.BinaryExpr)
+	if !isAs || !isBin || len(init.Lhs) != len(init.Rhs) {
+		return 0, 0, false, false
+	}
+	pos := -1
+	for i, lh := range init.Lhs {
+		if objOf(info, lh) == idx {
+			pos = i
+		}
+	}
+	if pos < 0 {
+		return 0, 0, false, false
+	}
+	start, ok = core.IntConst(info, init.Rhs[pos])
+	if !ok {
+		return 0, 0, false, false
+	}
+	bd := pat.Binds{"_i": init.Lhs[pos]}
+	switch {
+	case pat.Stmt("_i++").Match(info, l.Post, bd) != nil:
+		stride = 1
+	default:
+		b := pat.Stmt("_i += _k").Match(info, l.Post, bd)
+		if b == nil {
+			b = pat.Stmt("_i = _i + _k").Match(info, l.Post, bd)
+		}
+		if b == nil {
+			return 0, 0, false, false
+		}
+		if stride, ok = core.IntConst(info, b["_k"].(ast.Expr)); !ok {
+			return 0, 0, false, false
+		}
+	}
+	bound, op := cond.Y, cond.Op
+	if objOf(info, strip(info, cond.Y)) == idx {
+		bound = cond.X
+		op = map[token.Token]token.Token{token.GTR: token.LSS, token.NEQ: token.NEQ}[op]
+	} else if objOf(info, strip(info, cond.X)) != idx {
+		return 0, 0, false, false
+	}
+	bound = strip(info, bound)
+	if o := objOf(info, bound); o != nil { // hoisted bound
+		for i, lh := range init.Lhs {
+			if objOf(info, lh) == o {
+				bound = strip(info, init.Rhs[i])
+			}
+		}
+		if objOf(info, bound) == o {
+			if rhs, other := defsOf(info, body, o); len(rhs) == 1 && other == 0 && rhs[0] != nil {
+				bound = strip(info, rhs[0])
+			}
+		}
+	}
+	toLen = (op == token.LSS || op == token.NEQ) && pat.Expr("len(_buf)").Match(info, bound, pat.Binds{"_buf": buf}) != nil
+	return start, stride, toLen, true
+}
+
+// identFor returns an identifier inside e that denotes o.
+func identFor(info *types.Info, e ast.Expr, o types.Object) ast.Expr {
+	var out ast.Expr
+	ast.Inspect(e, func(n ast.Node) bool {
+		if id, ok := n.(*ast.Ident); ok && info.Uses[id] == o && out == nil {
+			out = id
+		}
+		return true
+	})
+	return out
 }
